@@ -36,7 +36,15 @@ func (g *Gen) instr(b *ssa.BasicBlock, ins ssa.Instruction, h Heap) Heap {
 		st := structOf(T)
 		f := st.Field(x.Field)
 		if _, isStruct := f.Type().Underlying().(*types.Struct); isStruct {
-			g.vals[x] = Val{T: g.subRef(T, f.Name(), p.T), S: SRef, Ty: x.Type()}
+			sub := g.subRef(T, f.Name(), p.T)
+			g.S.assert(not(eq(sub, "null")))
+			v := Val{T: sub, S: SRef, Ty: x.Type()}
+			if _, flat := isFlatStruct(f.Type()); !flat {
+				// opaque struct field: its value lives in the field component; the derived ref is only its address
+				comp, _ := g.fieldComp(T, f)
+				v.Addr = &Addr{Comp: comp, Ref: p.T, Ty: f.Type()}
+			}
+			g.vals[x] = v
 			return h
 		}
 		comp, _ := g.fieldComp(T, f)
